@@ -398,6 +398,22 @@ func installBuiltins(it *Interp) {
 			return nil, unspecified(name + ": " + o.Why)
 		})
 	}
+	// metadata is not part of the value model: with-meta returns its first argument (functions stay what they are)
+	it.def("with-meta", func(it *Interp, a []*canon.Node) (*canon.Node, *Err) {
+		if len(a) != 2 {
+			return nil, berr("with-meta arity")
+		}
+		switch a[0].K {
+		case canon.List, canon.Vec, canon.Map, canon.Set:
+			return a[0], nil
+		case canon.Opaque:
+			switch a[0].X.(type) {
+			case *Closure, *Builtin:
+				return a[0], nil
+			}
+		}
+		return nil, berr("with-meta on a value without metadata")
+	})
 	// atoms (reference objects)
 	it.def("atom", func(it *Interp, a []*canon.Node) (*canon.Node, *Err) {
 		if len(a) != 1 {
